@@ -943,6 +943,8 @@ class Ev(object):
             init = self.msc_view(o)
             if init is not None:
                 return self.subscript(init, k, st, site)
+            if getattr(self, "try_keyerr", 0) > 0:
+                self.do_raise(st.fork(), "KeyError", site)       # the miss, inside a try that handles it
             return [(st, App("index", (o, k)))]
         if isinstance(o, DictV) and _is_closed(k):
             kk = _py(k)
@@ -2392,7 +2394,19 @@ class Ev(object):
     def s_Try(self, n, env, st):
         site = self.site(n, env)
         mark = len(self.raised)
-        body_paths = self.block(n.body, self._cp(env), st)
+        # a lookup in a shared container of unknown contents may miss: explored only where the program itself expects it
+        def _names(h):
+            t = h.type
+            if t is None:
+                return {"KeyError"}
+            els = t.elts if isinstance(t, ast.Tuple) else [t]
+            return {e.id if isinstance(e, ast.Name) else getattr(e, "attr", "") for e in els}
+        expects_miss = any(_names(h) & {"KeyError", "LookupError", "Exception", "BaseException"} for h in n.handlers)
+        self.try_keyerr = getattr(self, "try_keyerr", 0) + (1 if expects_miss else 0)
+        try:
+            body_paths = self.block(n.body, self._cp(env), st)
+        finally:
+            self.try_keyerr -= 1 if expects_miss else 0
         caught = self.raised[mark:]
         del self.raised[mark:]
         assigned = set()
